@@ -322,6 +322,8 @@ func (c12) Run(plan interface{}, schedSeed uint64, replay []simrt.Choice, lenien
 	interleaved := false
 	lastFrom := uint16(0xffff)
 	openResp := map[uint16]bool{}
+	envDone := map[*byte]int{} // first byte of the packet that completes an environment change -> announced size
+	lastEnv := 0
 	var pump func()
 	pump = func() {
 		pumping = false
@@ -342,6 +344,9 @@ func (c12) Run(plan interface{}, schedSeed uint64, replay []simrt.Choice, lenien
 		}
 		lastFrom = c
 		openResp[c] = len(outq[c]) > 0
+		if sz, ok := envDone[&pk[0]]; ok {
+			lastEnv = sz
+		}
 		pr.Conn.Deliver(pk)
 		for _, c2 := range order {
 			if len(outq[c2]) > 0 {
@@ -496,15 +501,30 @@ func (c12) Run(plan interface{}, schedSeed uint64, replay []simrt.Choice, lenien
 		}
 		taskOfChan[m.Channel] = task
 		var body []byte
+		envLen, envSize := 0, 0
 		if task >= 1 && task <= len(p.Tasks) && p.Tasks[task-1].EnvSize > 0 {
-			body = append(body, peer.EnvChange(peer.EnvMember{Type: 4, New: fmt.Sprint(p.Tasks[task-1].EnvSize), Old: "512"})...)
+			envSize = p.Tasks[task-1].EnvSize
+			body = append(body, peer.EnvChange(peer.EnvMember{Type: 4, New: fmt.Sprint(envSize), Old: "512"})...)
+			envLen = len(body)
 			s.Fault("packet-size-change")
 		}
 		for k := 0; k < n; k++ {
 			body = append(body, peer.Done(0x11, 0, c12Marker(task, round, k))...)
 		}
 		body = append(body, peer.Done(0, 0, 0)...)
-		enqueue(m.Channel, peer.Packetise(body, peer.CutsBySize(len(body), p.BodySize), peer.BufResponse, m.Channel, true))
+		rpks := peer.Packetise(body, peer.CutsBySize(len(body), p.BodySize), peer.BufResponse, m.Channel, true)
+		if envLen > 0 {
+			// the packet in which the environment change is complete: when the reader has it, the size is in force
+			got := 0
+			for _, pk := range rpks {
+				got += len(pk) - peer.HeaderSize
+				if got >= envLen {
+					envDone[&pk[0]] = envSize
+					break
+				}
+			}
+		}
+		enqueue(m.Channel, rpks)
 		if task >= 1 && task <= len(p.Tasks) && round == p.Tasks[task-1].Rounds-1 && p.Tasks[task-1].Trailing > 0 {
 			var tb []byte
 			for k := 0; k < p.Tasks[task-1].Trailing; k++ {
@@ -535,6 +555,7 @@ func (c12) Run(plan interface{}, schedSeed uint64, replay []simrt.Choice, lenien
 	var connErr, mainErr, connCloseErr string
 	var ch0Got []string
 	registered := -1
+	finalSize := 0
 	splitUsed := false
 	for _, t := range p.Tasks {
 		splitUsed = splitUsed || t.Split
@@ -682,6 +703,7 @@ func (c12) Run(plan interface{}, schedSeed uint64, replay []simrt.Choice, lenien
 		// a channel whose NewChannel failed does not exist
 		simrt.Sleep(time.Millisecond)
 		registered = reflect.ValueOf(conn).Elem().FieldByName("tdsChannels").Len()
+		finalSize = conn.PacketSize()
 		if err := conn.Close(); err != nil {
 			connCloseErr = err.Error()
 		}
@@ -738,6 +760,17 @@ func (c12) Run(plan interface{}, schedSeed uint64, replay []simrt.Choice, lenien
 		}
 		if registered != want {
 			v.Violate("channel-table", "channel table does not match the open channels", "%d channels are registered on the connection, %d are open (channel 0 and the logical channels set up and not closed); a channel whose NewChannel failed must not stay registered", registered, want)
+		}
+	}
+	if lastEnv != 0 && finalSize != 0 && finalSize != lastEnv && v.Class == "" {
+		complete := true
+		for _, tr := range res {
+			if tr.skipped || tr.refused || tr.newErr != "" || len(tr.sendErrs) > 0 {
+				complete = false
+			}
+		}
+		if complete {
+			v.Violate("packet-size", "announced packet size not in force", "the channels' responses announced packet sizes in turn, the last announcement the reader received was %d: the connection's packet size is %d", lastEnv, finalSize)
 		}
 	}
 	for _, d := range ch0Got {
